@@ -48,9 +48,16 @@ Proof. vm_compute. reflexivity. Qed.
 Lemma tag_nonempty : valid_tag [] = false.
 Proof. vm_compute. reflexivity. Qed.
 
+(* everything below holds for every set of linked hash implementations *)
+Section Avail.
+Variable avail : str -> bool.
+Notation valid_digest := (Reference.valid_digest avail).
+Notation format := (Reference.format avail).
+Notation validate_reference := (Reference.validate_reference avail).
+
 Lemma digest_has_colon d : valid_digest d = true -> contains c_colon d = true.
 Proof.
-  unfold valid_digest. destruct (split_first c_colon d) as [[a e]|] eqn:E; [|discriminate].
+  unfold Reference.valid_digest. destruct (split_first c_colon d) as [[a e]|] eqn:E; [|discriminate].
   intros _. apply split_first_Some in E as [-> _]. rewrite contains_app.
   apply orb_true_iff. right. reflexivity.
 Qed.
@@ -70,7 +77,7 @@ Definition digest_char (c : N) : bool :=
 
 Lemma digest_chars d : valid_digest d = true -> forallb digest_char d = true.
 Proof.
-  unfold valid_digest. destruct (split_first c_colon d) as [[a e]|] eqn:E; [|discriminate].
+  unfold Reference.valid_digest. destruct (split_first c_colon d) as [[a e]|] eqn:E; [|discriminate].
   apply split_first_Some in E as [-> _].
   destruct (find _ alg_table) as [[a' n]|] eqn:F; [|discriminate].
   intro H. apply andb_true_iff in H as [_ H].
@@ -120,7 +127,7 @@ Section Grammar.
       ok_registry reg -> valid_repository repo = true -> contains c_at junk = false ->
       RefGrammar (reg ++ [c_slash] ++ repo ++ [c_colon] ++ junk ++ [c_at]) (mkRef reg repo []).
 
-  Notation parse := (parse valid_registry).
+  Notation parse := (Reference.parse avail valid_registry).
 
   Lemma parse_form_D reg repo :
     ok_registry reg -> valid_repository repo = true ->
@@ -253,7 +260,7 @@ Section Grammar.
 
   Theorem format_parse r : wf_ref r -> parse (format r) = Some r.
   Proof.
-    destruct r as [reg repo rf]. unfold wf_ref, format. simpl.
+    destruct r as [reg repo rf]. unfold wf_ref, Reference.format. simpl.
     intros (Hr & Hp & Hf).
     destruct repo as [|x repo]; [now rewrite repo_nonempty in Hp|].
     destruct Hf as [->|[Ht|Hd]].
@@ -277,8 +284,8 @@ Section RepoParse.
   Hypothesis Hbase_reg : ok_registry valid_registry breg.
   Hypothesis Hbase_repo : valid_repository brepo = true.
 
-  Notation repo_parse := (repo_parse valid_registry breg brepo).
-  Notation parse := (parse valid_registry).
+  Notation repo_parse := (Reference.repo_parse avail valid_registry breg brepo).
+  Notation parse := (Reference.parse avail valid_registry).
 
   Lemma parse_no_slash s : contains c_slash s = false -> parse s = None.
   Proof. intro H. unfold Reference.parse. apply split_first_None in H. now rewrite H. Qed.
@@ -306,7 +313,7 @@ Section RepoParse.
     intro H. unfold Reference.repo_parse, repo_parse_gen.
     rewrite (parse_no_slash _ (tag_no_slash _ H)).
     assert (E : split_first c_at t = None) by (apply split_first_None; now apply tag_no_at).
-    rewrite E. unfold validate_reference.
+    rewrite E. unfold Reference.validate_reference.
     destruct t as [|x t]; [now rewrite tag_nonempty in H|].
     rewrite (tag_no_colon _ H), H. reflexivity.
   Qed.
@@ -316,7 +323,7 @@ Section RepoParse.
     intro H. unfold Reference.repo_parse, repo_parse_gen.
     rewrite (parse_no_slash _ (digest_no_slash _ H)).
     assert (E : split_first c_at d = None) by (apply split_first_None; now apply digest_no_at).
-    rewrite E. unfold validate_reference.
+    rewrite E. unfold Reference.validate_reference.
     destruct d as [|x d]; [discriminate|].
     rewrite (digest_has_colon _ H), H. reflexivity.
   Qed.
@@ -387,7 +394,7 @@ Section RepoParse.
       + destruct (validate_reference s) eqn:V; [|discriminate]. simpl.
         destruct s as [|x s]; [discriminate|]. intro H. injection H as <-. simpl.
         repeat split; auto; try discriminate.
-        unfold validate_reference in V. destruct (contains c_colon (x :: s)); auto.
+        unfold Reference.validate_reference in V. destruct (contains c_colon (x :: s)); auto.
   Qed.
 
   Theorem repo_parse_empty : repo_parse [] = None.
@@ -434,7 +441,7 @@ Section RepoParse.
         destruct (valid_digest d) eqn:V; [|discriminate].
         apply digest_no_slash in V. unfold contains in V, Hs. rewrite V in Hs. discriminate.
       + destruct (validate_reference s) eqn:V; [|discriminate]. intros _.
-        unfold validate_reference in V. destruct s as [|x s]; [discriminate|].
+        unfold Reference.validate_reference in V. destruct s as [|x s]; [discriminate|].
         destruct (contains c_colon (x :: s)).
         * apply digest_no_slash in V. congruence.
         * apply tag_no_slash in V. congruence.
@@ -453,18 +460,6 @@ Section RepoParse.
     - exists c_colon, (junk ++ [c_at] ++ d). split; [reflexivity | now left].
   Qed.
 End RepoParse.
-
-(* before the fix: a malformed foreign path in front of a digest was re-targeted to the base *)
-Theorem repo_parse_prefix_retargets :
-  exists vr breg brepo s r,
-    ok_registry vr breg /\ valid_repository brepo = true /\
-    repo_parse_prefix vr breg brepo s = Some r /\ contains c_slash s = true /\ parse vr s = None.
-Proof.
-  exists (fun _ => true), (b "docker.io"), (b "library/x"),
-         (b "ghcr.io/Org/app@sha256:e3b0c44298fc1c149afbf4c8996fb92427ae41e4649b934ca495991b7852b855"),
-         (mkRef (b "docker.io") (b "library/x") (b "sha256:e3b0c44298fc1c149afbf4c8996fb92427ae41e4649b934ca495991b7852b855")).
-  unfold ok_registry. repeat split; vm_compute; reflexivity.
-Qed.
 
 (* ---------- URL slot ---------- *)
 
@@ -554,6 +549,20 @@ Proof.
     rewrite <- app_assoc, app_assoc. simpl ([c_slash] ++ _). now apply after_last_app.
   - replace (b "/referrers/") with (b "/referrers" ++ [c_slash]) by reflexivity.
     rewrite <- app_assoc, app_assoc. simpl ([c_slash] ++ _). now apply after_last_app.
+Qed.
+
+End Avail.
+
+(* before the fix: a malformed foreign path in front of a digest was re-targeted to the base *)
+Theorem repo_parse_prefix_retargets :
+  exists avail vr breg brepo s r,
+    ok_registry vr breg /\ valid_repository brepo = true /\
+    repo_parse_prefix avail vr breg brepo s = Some r /\ contains c_slash s = true /\ parse avail vr s = None.
+Proof.
+  exists (fun _ => true), (fun _ => true), (b "docker.io"), (b "library/x"),
+         (b "ghcr.io/Org/app@sha256:e3b0c44298fc1c149afbf4c8996fb92427ae41e4649b934ca495991b7852b855"),
+         (mkRef (b "docker.io") (b "library/x") (b "sha256:e3b0c44298fc1c149afbf4c8996fb92427ae41e4649b934ca495991b7852b855")).
+  unfold ok_registry. repeat split; vm_compute; reflexivity.
 Qed.
 
 (* ---------- tag grammar: the regex is exactly the documented rule ---------- *)
